@@ -267,6 +267,10 @@ pub struct Style {
     /// The `#h` hash line stands in the header, before the table, instead of at the end.
     #[serde(default)]
     pub hash_line_first: bool,
+    /// Columns separated by non-ASCII Unicode white space (a full-width space from a CJK input
+    /// method, a no-break space): lenient.
+    #[serde(default)]
+    pub unicode_blanks: bool,
 }
 
 fn sep_str(sep: u8, rng: &mut Rng) -> String {
@@ -336,7 +340,12 @@ pub fn render(table: &[Entry], style: &Style, rng: &mut Rng) -> String {
         } else {
             String::new()
         };
-        let mut l = format!("{indent}{ts}{}{dat}", sep_str(style.sep, rng));
+        let sep = if style.unicode_blanks && rng.chance(2, 3) {
+            (*rng.pick(&["\u{3000}", "\u{a0}", "\u{2003}", "\u{3000}\t", " \u{a0}\u{a0}"])).to_string()
+        } else {
+            sep_str(style.sep, rng)
+        };
+        let mut l = format!("{indent}{ts}{sep}{dat}");
         if style.trailing_comment {
             // date of the entry, as in the real file
             let (y, m) = civil_of_ntp(ts);
@@ -454,6 +463,7 @@ pub fn random_style(rng: &mut Rng) -> Style {
         mixed_endings: false,
         stale_expiry: false,
         hash_line_first: false,
+        unicode_blanks: false,
     }
 }
 
@@ -590,6 +600,13 @@ pub fn build_pool(shipped_text: String, shipped_table: Vec<Entry>, n_rendered: u
             style.blank_only_lines = k % 4 == 2;
             style.indent_comments = k % 8 == 5;
             style.mixed_endings = k % 3 == 1;
+            style.unicode_blanks = k % 8 == 4;
+            if style.unicode_blanks {
+                // the comment follows the offset after a single tab: a loader that measures the
+                // line in characters but cuts it in bytes then cuts into the offset
+                style.trailing_comment = true;
+                style.sep = 0;
+            }
         }
         if i % 16 == 13 {
             // the last line of the file is a data line without a line terminator
@@ -649,14 +666,15 @@ pub fn build_pool(shipped_text: String, shipped_table: Vec<Entry>, n_rendered: u
             // of a first comment line (both lenient: `strict` is already false for i % 8 == 3)
             let mut out = String::with_capacity(text.len() + 16);
             for (k, line) in text.split_inclusive('\n').enumerate() {
-                let is_data = line.trim_start_matches([' ', '\t']).bytes().next().map(|b| b.is_ascii_digit()).unwrap_or(false);
+                let blank = |c: char| c.is_whitespace() && c != '\n' && c != '\r';
+                let is_data = line.trim_start_matches(blank).bytes().next().map(|b| b.is_ascii_digit()).unwrap_or(false);
                 if is_data && k % 3 == 0 {
                     // "<blanks?><ts><blanks><dat>..." -> zero-pad dat
-                    let lead = line.len() - line.trim_start_matches([' ', '\t']).len();
+                    let lead = line.len() - line.trim_start_matches(blank).len();
                     let body = &line[lead..];
-                    let ts_end = body.find([' ', '\t']).unwrap_or(body.len());
+                    let ts_end = body.find(blank).unwrap_or(body.len());
                     let rest = &body[ts_end..];
-                    let gap = rest.len() - rest.trim_start_matches([' ', '\t']).len();
+                    let gap = rest.len() - rest.trim_start_matches(blank).len();
                     out.push_str(&line[..lead + ts_end + gap]);
                     out.push_str("00");
                     out.push_str(&rest[gap..]);
